@@ -40,12 +40,22 @@ fn run_format(src: &str, indent: u8) -> Out {
 	}
 }
 
+/// messages of the errors `jrsonnet_rowan_parser::parse` derives from the finished tree after
+/// `Sink::finish` (lib.rs: duplicate_parameter_names, spaced_visibility_colons, comprehension_shape)
+const POST_PASS_ERRORS: [&str; 5] = [
+	"duplicate parameter name",
+	"field visibility is a single token",
+	"first compspec should be for",
+	"compspecs can't be followed by comma",
+	"missing object comprehension field",
+];
+
 /// what the real rowan parser + tree builder did with one text
 pub struct Parsed {
 	pub errs: Vec<(usize, usize)>,
 	/// the errors the tree builder (`Sink::finish`) reported: `errs` without the ones `parse()`
-	/// adds afterwards from the finished tree (duplicate parameter names; C06 compares that verdict
-	/// with the evaluator's parsers)
+	/// adds afterwards from the finished tree (`POST_PASS_ERRORS`; C06 compares that verdict with
+	/// the evaluator's parsers)
 	pub sink_errs: Vec<(usize, usize)>,
 	/// pre-order of the real tree: [1,kind] open node, [2,kind,lo,hi] token, [3] close node
 	pub ops: Vec<serde_json::Value>,
@@ -65,7 +75,7 @@ fn run_parse(src: &str) -> Result<Parsed, String> {
 		let errs = errors.iter().map(|e| (usize::from(e.range.start()), usize::from(e.range.end()))).collect();
 		let sink_errs = errors
 			.iter()
-			.filter(|e| !e.error.to_string().starts_with("duplicate parameter name"))
+			.filter(|e| !POST_PASS_ERRORS.iter().any(|m| e.error.to_string().starts_with(m)))
 			.map(|e| (usize::from(e.range.start()), usize::from(e.range.end())))
 			.collect();
 		let mut ops = Vec::new();
